@@ -476,6 +476,23 @@ def c14_r4(ctx):
             ctx.ok()
         else:
             ctx.viol((f.id, "contradiction-unguarded"), "Contradiction is not tied to `same name, different node kind`", f.where(bb, idx))
+    # a hit never passes silently unless the kinds were compared and found equal
+    def kinds_cmp(d):
+        if "call" not in d or d["op"] not in ("Ne", "Eq"):
+            return False
+        ao, bo = f.origins_of_operand(d["a"]), f.origins_of_operand(d["b"])
+        return all(o[-1] == ("field", "node_type") for o in ao | bo) and ao != bo and ao and bo
+    equal_e = f.cmp_edges(lambda d: d["op"] == "Ne" and kinds_cmp(d), False) | f.cmp_edges(lambda d: d["op"] == "Eq" and kinds_cmp(d), True)
+    none_e = f.edges_of_call_variant(g, "None")
+    for (bb, idx, rv, pl) in f.constructs("std::result::Result", "Ok"):
+        if pl["local"] != 0:
+            continue
+        ctx.inst("Ok of the merge", f.where(bb, idx))
+        r = f.reach([0], avoid_edges=equal_e | none_e)
+        if bb in r:
+            ctx.viol((f.id, "repeated-name-unchecked"), "a repeated name can be accepted without its kind (file / directory) having been compared with the earlier entry: one of the two entries is silently dropped", f.where(bb, idx))
+        else:
+            ctx.ok()
     # producer: PathBundle{nodes} built from map.into_iter()
     for h in prod(ctx.P):
         for (bb, idx, rv, pl) in h.constructs("bundle::PathBundle"):
